@@ -2,6 +2,14 @@
 """tools/seed_table.py: the table of seeded changes for DESIGN.md section 0.5, from seeded/*/meta.json."""
 import json, os, re
 NOTES = {
+ 'C20-15': 'missed, then an uncaught exception in the harness -> set_backend() / set_backend(None) / set_backend(load=True) under MIDO_BACKEND values and the default, exceptions recorded as failures',
+ 'C20-16': 'missed -> the device list is no longer in alphabetical order and one name stands for two devices',
+ 'C10-13': 'missed -> ParserQueue fed from several threads under the scheduler (locks found by type, put() as the yield point): per-thread order, nothing lost',
+ 'C10-14': 'missed (same change as C10-13 by another agent) -> same scenario',
+ 'C11-15': 'missed -> close() from 2-3 threads under the scheduler, the device taking a moment to release: exactly one release',
+ 'C11-16': 'caught by disagreement only -> oracle: MultiPort.receive(block=False) never sleeps',
+ 'C15-14': 'missed -> equal messages whose values are equal numbers of different types (time 1 / 1.0, 1 / True) must hash alike',
+ 'C19-14': 'caught by disagreement only -> oracle for binary files: the sysex messages of the byte stream, whatever stands between them',
  'C06-13': 'missed -> prefix + message also given as bytes / bytearray / tuple / memoryview, the message from the boundary values (127) half of the time',
  'C09-11': 'missed -> the caller uses (decodes, appends to, empties) the list an encoder returned; the next call must be unaffected',
  'C10-12': 'missed (outside the port kinds C10 names: the helper functions on a shared list) -> multi_send / multi_receive scenarios with a polling order other than the list order; per-sub-port exactly-once oracle',
